@@ -433,10 +433,17 @@ func (s *storage) fetch(br blob.Ref, offset, length int64) (rc io.ReadCloser, si
 		return nil, 0, err
 	}
 
-	if meta.file >= len(s.fds) {
-		return nil, 0, fmt.Errorf("diskpacked: attempt to fetch blob from out of range pack file %d > %d", meta.file, len(s.fds))
+	// s.fds grows when an append rolls over to the next pack file.
+	s.mu.Lock()
+	nfds := len(s.fds)
+	var rac *os.File
+	if meta.file < nfds {
+		rac = s.fds[meta.file]
 	}
-	rac := s.fds[meta.file]
+	s.mu.Unlock()
+	if rac == nil {
+		return nil, 0, fmt.Errorf("diskpacked: attempt to fetch blob from out of range pack file %d > %d", meta.file, nfds)
+	}
 	var rs io.ReadSeeker
 	if length == -1 {
 		// normal Fetch mode
